@@ -247,6 +247,121 @@ func main() {
 		}
 	}
 
+	// 6. the rest of the glue as DATA (consumed by C01_gen_glue_shapes): what the model of Model/C01Glue.lean is written for
+	parse := func(rel string) (*token.FileSet, *ast.File) {
+		fs := token.NewFileSet()
+		pf, err := parser.ParseFile(fs, filepath.Join(repo, rel), nil, 0)
+		if err != nil {
+			die("%v", err)
+		}
+		return fs, pf
+	}
+	// refCountDone.OnDone: how the errors of the flushes of one request are combined
+	refCombine := ""
+	{
+		fs, pf := parse("exporter/exporterhelper/internal/queuebatch/default_batcher.go")
+		for _, d := range pf.Decls {
+			fd, ok := d.(*ast.FuncDecl)
+			if !ok || fd.Name.Name != "OnDone" || fd.Recv == nil || !strings.Contains(render(fs, fd.Recv.List[0].Type), "refCountDone") {
+				continue
+			}
+			ast.Inspect(fd.Body, func(n ast.Node) bool {
+				if as, ok := n.(*ast.AssignStmt); ok && len(as.Lhs) == 1 && render(fs, as.Lhs[0]) == "rcd.err" {
+					if refCombine != "" {
+						die("refCountDone.OnDone: rcd.err is assigned more than once")
+					}
+					refCombine = render(fs, as.Rhs[0])
+				}
+				return true
+			})
+			if render(fs, fd.Body) != "{ rcd.mu.Lock() defer rcd.mu.Unlock() rcd.err = "+refCombine+" rcd.refCount-- if rcd.refCount == 0 { rcd.done.OnDone(rcd.err) } }" {
+				die("refCountDone.OnDone changed: %q", render(fs, fd.Body))
+			}
+		}
+		if refCombine == "" {
+			die("refCountDone.OnDone: assignment to rcd.err not found")
+		}
+	}
+	// NewQueueSender: the export closure returns the error of next.Send unchanged
+	var exportReturns []string
+	{
+		fs, pf := parse("exporter/exporterhelper/internal/queue_sender.go")
+		var lit *ast.FuncLit
+		ast.Inspect(funcDecl(pf, "NewQueueSender"), func(n ast.Node) bool {
+			if as, ok := n.(*ast.AssignStmt); ok && len(as.Lhs) == 1 && render(fs, as.Lhs[0]) == "exportFunc" {
+				lit, _ = as.Rhs[0].(*ast.FuncLit)
+			}
+			return true
+		})
+		if lit == nil {
+			die("NewQueueSender: exportFunc closure not found")
+		}
+		ast.Inspect(lit.Body, func(n ast.Node) bool {
+			switch x := n.(type) {
+			case *ast.IfStmt:
+				exportReturns = append(exportReturns, "if "+render(fs, x.Init)+"; "+render(fs, x.Cond))
+			case *ast.ReturnStmt:
+				exportReturns = append(exportReturns, render(fs, x))
+			}
+			return true
+		})
+	}
+	// retrySender.Send: what an attempt interrupted by stopCh returns; what a permanent error returns
+	var stopReturns []string
+	{
+		fs, pf := parse("exporter/exporterhelper/internal/retry_sender.go")
+		ast.Inspect(funcDecl(pf, "Send"), func(n ast.Node) bool {
+			if cc, ok := n.(*ast.CommClause); ok && cc.Comm != nil && strings.Contains(render(fs, cc.Comm), "rs.stopCh") {
+				var body []string
+				for _, st := range cc.Body {
+					body = append(body, render(fs, st))
+				}
+				stopReturns = append(stopReturns, strings.Join(body, "; "))
+			}
+			return true
+		})
+		if len(stopReturns) == 0 {
+			die("retrySender.Send: no `case <-rs.stopCh` found")
+		}
+	}
+	// persistentQueue.onDone: the condition under which the item is kept (an `if` whose body is a bare return)
+	keepGuard := ""
+	ast.Inspect(funcDecl(f, "onDone").Body, func(n ast.Node) bool {
+		if is, ok := n.(*ast.IfStmt); ok && len(is.Body.List) == 1 {
+			if r, ok := is.Body.List[0].(*ast.ReturnStmt); ok && len(r.Results) == 0 {
+				if keepGuard != "" {
+					die("onDone: two early returns")
+				}
+				fs0 := token.NewFileSet()
+				keepGuard = render(fs0, is.Cond)
+			}
+		}
+		return true
+	})
+	if keepGuard == "" {
+		die("onDone: `if <shutdown error> { return }` not found")
+	}
+	// BaseExporter.Shutdown: the order in which the senders are shut down
+	var shutOrder []string
+	{
+		fs, pf := parse("exporter/exporterhelper/internal/base_exporter.go")
+		ast.Inspect(funcDecl(pf, "Shutdown"), func(n ast.Node) bool {
+			if ce, ok := n.(*ast.CallExpr); ok {
+				if sel, ok := ce.Fun.(*ast.SelectorExpr); ok && sel.Sel.Name == "Shutdown" {
+					shutOrder = append(shutOrder, render(fs, sel.X))
+				}
+			}
+			return true
+		})
+	}
+	leanList := func(xs []string) string {
+		q := make([]string, len(xs))
+		for i, x := range xs {
+			q[i] = strconv.Quote(x)
+		}
+		return "[" + strings.Join(q, ", ") + "]"
+	}
+
 	fmt.Println("/-! GENERATED by translators/cmd/pqkeys from exporter/exporterhelper/internal/queuebatch/persistent_queue.go — do not edit -/")
 	fmt.Println("namespace OtelVerif.Gen.PQKeys")
 	fmt.Printf("def readIndexKey : String := %q\n", keys["readIndexKey"])
@@ -260,5 +375,11 @@ func main() {
 	fmt.Printf("def writeBackupMod : Nat := %d\ndef writeBackupRem : Nat := %d\ndef readBackupMod : Nat := %d\ndef readBackupRem : Nat := %d\n", wm, wr, rm, rr)
 	fmt.Println("/-- 1 = the consumer glue has the pinned shape: asyncQueue's loop is `Read; if !ok return; consumeFunc(ctx, req, done)` and\n    disabledBatcher.Consume is `done.OnDone(db.consumeFunc(ctx, req))` (otherwise the translator fails) -/")
 	fmt.Println("def consumerGlueShapePinned : Nat := 1")
+	fmt.Println("/-- the glue between `Read` and `Done` as data (statements rendered by go/printer, blanks normalised); the glue machine\n    `Model/C01Glue.lean` is written for exactly these (`C01_gen_glue_shapes`) -/")
+	fmt.Printf("def refCountCombine : String := %q\n", refCombine)
+	fmt.Printf("def exportFuncShape : List String := %s\n", leanList(exportReturns))
+	fmt.Printf("def retryStopReturns : List String := %s\n", leanList(stopReturns))
+	fmt.Printf("def onDoneKeepGuard : String := %q\n", keepGuard)
+	fmt.Printf("def baseExporterShutdownOrder : List String := %s\n", leanList(shutOrder))
 	fmt.Println("end OtelVerif.Gen.PQKeys")
 }
